@@ -17,7 +17,7 @@ PROPS = {
     "C04": {
         "design_ref": "6.2/C04",
         "technique": "Lean 4 refinement proof (slot-level model of RingBuffer.h refines a bounded deque, per operation and by induction over every history) + three-way differential correspondence model/oracle/real code",
-        "level_text": "Machine-checked proof: every valid operation of the transcribed model (all members incl. the three resize layouts, copy/move/assign, iteration) succeeds, returns the bounded deque's answer and preserves the representation invariant, for every capacity, head position, overwrite mode and element type; lifted by induction to every finite history over several objects. The model is tied to the header in /repo on every run by running model, a Python bounded-deque oracle and the real RingBuffer<Tracked/long> on the same generated histories (every reachable layout x every op, exhaustive short words, seeded random).",
+        "level_text": "Machine-checked proof: every valid operation of the transcribed model (all members incl. the three resize layouts, copy/move/assign, iteration) succeeds, returns the bounded deque's answer and preserves the representation invariant, for every capacity, head position, overwrite mode and element type; lifted by induction to every finite history over several objects. The model is tied to the header in /repo on every run by running model, a Python bounded-deque oracle and the real RingBuffer<Tracked/long/double> on the same generated histories (every reachable layout x every op, exhaustive short words, seeded random).",
         "level_note": "Trusted: Lean kernel; hand transcription of RingBuffer.h (checked by the correspondence run, not proved); malloc/realloc/memcpy modelled as slot relocation (sound only for bitwise-relocatable T, the property's own restriction); unbounded Nat (no size_t overflow, no allocation failure); signed modCap related to the Nat index arithmetic by C04_modCap_signed.",
         "lean_modules": ["Tulz.Props.C04"],
         "theorems": ["Tulz.C04_op_refines", "Tulz.C04_history", "Tulz.C04_history_from_empty", "Tulz.C04_resize_keeps_front",
@@ -215,6 +215,8 @@ def gen_random_case(rng, maxcap, maxlen):
     nid = [0]
 
     def val():
+        if rng.chance(1, 14):
+            return 0                             # the value with two representations in the double instantiation
         if rng.chance(1, 8) and nextv[0] > 2:
             return 1 + rng.below(nextv[0])       # repeated value
         nextv[0] += 1
@@ -304,6 +306,53 @@ def gen_random_case(rng, maxcap, maxlen):
     return case
 
 
+def gen_wide_cases(rng, n):
+    """capacities around 2^8 (an index kept in a narrow integer type shows here): the buffer is driven past its capacity so that
+    the head wraps, then observed, resized across the boundary, copied and compared"""
+    cases = []
+    for k in range(n):
+        cap = rng.pick([255, 256, 257, 300])
+        ow = 1 if k % 4 else 0
+        c = ["rb new 1 %d %d" % (cap, ow)]
+        total = cap + rng.below(cap) if ow else cap - rng.below(3)
+        v = 1
+        for _ in range(total):
+            c.append("rb %s 1 %d" % ("pb" if rng.chance(5, 6) else "pf", v))
+            v += 1
+            if not ow and rng.chance(1, 8) and len(c) > 3:
+                c.append("rb %s 1" % rng.pick(["popf", "popb"]))
+        c += ["rb size 1", "rb front 1", "rb back 1", "rb get 1 %d" % rng.below(200), "rb iter 1"]
+        for _ in range(6):
+            c.append("rb %s 1" % rng.pick(["popf", "popb"]))
+        for _ in range(4):
+            c.append("rb %s 1 %d" % (rng.pick(["pb", "pf"]), v))
+            v += 1
+        c += ["rb copy 2 1", "rb eq 1 2", "rb resize 1 %d" % rng.pick([255, 256, 257, 300, 128, 513]), "rb iter 1", "rb eq 1 2",
+              "rb cassign 2 1", "rb iter 2", "rb drop 1", "rb iter 2", "rb drop 2"]
+        if valid(c):
+            cases.append(c)
+    return cases
+
+
+def gen_zero_cases():
+    """two buffers built independently with the same values, among them 0 (which the double instantiation stores with
+    alternating sign): contiguous and wrapped layouts, both overwrite modes, compared after every step"""
+    cases = []
+    for ow in (0, 1):
+        for cap in (1, 2, 3, 4):
+            for pre in (0, 1, 2):
+                c = ["rb new 1 %d %d" % (cap, ow), "rb new 2 %d %d" % (cap, ow), "rb eq 1 2"]
+                for _ in range(pre):                       # rotate the head of buffer 1 only
+                    c += ["rb pb 1 9", "rb popf 1"]
+                seq = [0, 5, 0, 0, 7][:cap]
+                for v in seq:
+                    c += ["rb pb 1 %d" % v, "rb pf 2 %d" % v if False else "rb pb 2 %d" % v, "rb eq 1 2", "rb eq 2 1"]
+                c += ["rb copy 3 1", "rb eq 3 2", "rb popf 1", "rb eq 1 2", "rb popf 2", "rb eq 1 2", "rb iter 1", "rb iter 2"]
+                if valid(c):
+                    cases.append(c)
+    return cases
+
+
 def gen_layout_cases(maxcap):
     """every reachable (pos, size, cap) layout x every operation, applied on the implementation:
     a buffer of capacity c is driven to head position p with s elements, then one op is applied"""
@@ -387,16 +436,27 @@ def run_tie(prop, spec, tier, seed):
             res.failures.append(Failure("infra", "harness (long) does not compile", replay={"compiler": out2[-3000:]}))
             return res
 
+    bin_double = None
+    if prop == "C04":
+        bin_double, out3 = lib.build_harness("rb_double", [HARNESS], extra_flags=["-DELEM_DOUBLE"], deps=["harness/tracked.h"])
+        if bin_double is None:
+            res.failures.append(Failure("infra", "harness (double) does not compile", replay={"compiler": out3[-3000:]}))
+            return res
+
     cases = lib.load_corpus("ringbuffer")
     ncorpus = len(cases)
     if tier == "quick":
         cases += gen_exhaustive(3, 4)
         cases += gen_layout_cases(4)
         cases += [gen_random_case(rng, 9, 60) for _ in range(6000)]
+        cases += gen_wide_cases(rng.fork("wide"), 8)
+        cases += gen_zero_cases()
     else:
         cases += gen_exhaustive(3, 6)
         cases += gen_layout_cases(8)
         cases += [gen_random_case(rng, 12, 120) for _ in range(60000)]
+        cases += gen_wide_cases(rng.fork("wide"), 60)
+        cases += gen_zero_cases()
 
     exp = [expected(c) for c in cases]
     impl = seqtie.run_stream(binary, cases, "rb reset")
@@ -407,6 +467,7 @@ def run_tie(prop, spec, tier, seed):
         model.append(raw[1::2])
         layouts.append(raw[0::2])
     impl_long = seqtie.run_stream(bin_long, cases, "rb reset") if bin_long else None
+    impl_double = seqtie.run_stream(bin_double, cases, "rb reset") if bin_double else None
 
     distinct = set()
     opcount = {}
@@ -434,8 +495,8 @@ def run_tie(prop, spec, tier, seed):
             if o == ["!SKIPPED"]:
                 res.extra["skipped_after_crashes"] = res.extra.get("skipped_after_crashes", 0) + 1
                 continue
-            pe = [project(prop if which != "long" else "C04", x) for x in e]
-            po = [project(prop if which != "long" else "C04", x) for x in o]
+            pe = [project(prop if which not in ("long", "double") else "C04", x) for x in e]
+            po = [project(prop if which not in ("long", "double") else "C04", x) for x in o]
             d = seqtie.first_diff(pe, po)
             if d is None:
                 continue
@@ -446,7 +507,7 @@ def run_tie(prop, spec, tier, seed):
                 res.failures.append(Failure("drift", "Lean model disagrees with the bounded-deque oracle at op %d: expected %r, model %r" % (d[0], d[1], d[2]),
                                             replay={"correspondence": "ringbuffer model vs oracle", "ops": c, "expected": e, "model": o}))
                 continue
-            b = binary if which == "impl" else bin_long
+            b = binary if which == "impl" else bin_long if which == "long" else bin_double
             pj = prop if which == "impl" else "C04"
 
             def fails(cand):
@@ -461,7 +522,7 @@ def run_tie(prop, spec, tier, seed):
             dd = seqtie.first_diff([project(pj, x) for x in ee], [project(pj, x) for x in oo])
             res.failures.append(Failure("violation",
                                         "RingBuffer<%s> differs from the bounded deque at op %d (%s): expected %r, got %r" %
-                                        ("Tracked" if which == "impl" else "long", dd[0], small[dd[0]] if dd[0] < len(small) else "?", dd[1], dd[2]),
+                                        ("Tracked" if which == "impl" else which, dd[0], small[dd[0]] if dd[0] < len(small) else "?", dd[1], dd[2]),
                                         signature=";".join(small),
                                         replay={"component": "ringbuffer", "element": which, "ops": small, "expected": ee, "got": oo}))
         return nfail
@@ -469,6 +530,8 @@ def run_tie(prop, spec, tier, seed):
     res.extra["impl_mismatches"] = check("impl", impl, "impl")
     if impl_long is not None:
         res.extra["impl_long_mismatches"] = check("impl", impl_long, "long")
+    if impl_double is not None:
+        res.extra["impl_double_mismatches"] = check("impl", impl_double, "double")
     res.extra["model_mismatches"] = check("model", model, "model")
     return res
 
@@ -481,8 +544,8 @@ def replay(prop, spec, path):
         print(json.dumps(data, indent=1))
         return 0
     which = data["replay"].get("element", "impl")
-    binary, out = lib.build_harness("rb_tracked" if which == "impl" else "rb_long", [HARNESS],
-                                    extra_flags=[] if which == "impl" else ["-DELEM_LONG"], deps=["harness/tracked.h"])
+    binary, out = lib.build_harness({"impl": "rb_tracked", "long": "rb_long", "double": "rb_double"}[which], [HARNESS],
+                                    extra_flags={"impl": [], "long": ["-DELEM_LONG"], "double": ["-DELEM_DOUBLE"]}[which], deps=["harness/tracked.h"])
     e = expected(ops)
     o = seqtie.run_stream(binary, [ops], "rb reset")[0]
     m = seqtie.run_stream(None, [ops], "rb reset", is_driver=True)[0]
